@@ -28,7 +28,8 @@ ASSUMPTIONS = [
 ]
 REQUIRED_PROBES = ["saved_after_setup_on_aware_grid", "saved_chp_after_setup", "aware_own_grid_reloaded_with_naive_interval_data",
                    "ndarray_datetime64_in_dict", "datetimeindex_in_dict", "structured_inside_structured", "scaled_asset_saved",
-                   "linked_asset_saved", "unacked_save_then_load", "crash_then_restart_load"]
+                   "linked_asset_saved", "unacked_save_then_load", "crash_then_restart_load", "run_from_json_with_other_grid",
+                   "grid_zone_only_through_dates", "chp_no_heat_flag"]
 SHRINK_KEYS = ["steps"]
 
 # --------------------------------------------------------------------------- generation
@@ -36,6 +37,7 @@ SHRINK_KEYS = ["steps"]
 
 def gen_plan(rng, run_index, tier, opts):
     env = specs.Env(rng, max_T=36)
+    env.allow_date_only_zone = True
     w = env.world
     g0 = specs.gen_grid(env)
     f0 = w["grids"][g0]["freq"]
@@ -107,8 +109,12 @@ def gen_plan(rng, run_index, tier, opts):
             elif r < 0.18:
                 ld["fault"] = "short_read"
                 ld["frac"] = round(rng.choice([rng.random(), 1.0, 0.98]), 3)
-            elif r < 0.28 and target[0] == "P" and own_grid and not mip:
-                ld["path"] = "run_from_json"
+            elif r < 0.34 and target[0] == "P" and not mip:
+                if own_grid and rng.random() < 0.5:
+                    ld["path"] = "run_from_json"
+                else:
+                    ld["path"] = "run_from_json"
+                    ld["rfj_grid"] = rng.choice(probes[:2])   # grid handed to run_from_json (overrides a stored one)
         steps.append(ld)
         if st.get("fault") in ("enospc", "eio_close", "crash") or ld.get("fault"):
             # retry after the fault: a clean save + load must work again (bounded liveness)
@@ -182,6 +188,10 @@ class Run:
             self.probes["saved_chp_after_setup"] += 1
         if "ScaledAsset" in classes:
             self.probes["scaled_asset_saved"] += 1
+        if any(w["assets"][a]["kw"].get("_no_heat") for a in ids):
+            self.probes["chp_no_heat_flag"] += 1
+        if self.live_grid and w["grids"][self.live_grid].get("date_zone") and hasattr(self.live, "timegrid") and hasattr(self.live, "assets"):
+            self.probes["grid_zone_only_through_dates"] += 1
         if "LinkedAsset" in classes:
             self.probes["linked_asset_saved"] += 1
         txt = json.dumps([w["assets"][a]["kw"] for a in ids] + [w["dicts"][d] for d in specs.referenced_ids(w, self.plan["target"]) if d[0] == "d"])
@@ -411,14 +421,16 @@ class Run:
         ran = False
         with self.disk.mounted(faults) as d:
             try:
-                if path == "run_from_json" and getattr(refs[0] if refs else None, "_verif_grid_id", None) is not None:
-                    rg = refs[0]._verif_grid_id
+                rfj_g = st.get("rfj_grid")
+                if path == "run_from_json" and refs and (rfj_g or getattr(refs[0], "_verif_grid_id", None) is not None):
+                    rg = rfj_g or refs[0]._verif_grid_id
                     loaded = eao.serialization.load_from_json(file_name="obj.json")
                     try:
-                        out = eao.serialization.run_from_json(file_name_in="obj.json", prices=self.B.prices(self.pgrid[rg]))
+                        kwr = {"timegrid": self.B.grid(rfj_g)} if rfj_g else {}
+                        out = eao.serialization.run_from_json(file_name_in="obj.json", prices=self.B.prices(self.pgrid[rg]), **kwr)
                     except Exception as e2:
                         out = ("raise", type(e2).__name__)
-                    ran = True
+                    ran = rg
                 else:
                     loaded = eao.serialization.load_from_json(file_name="obj.json")
             except Exception as e:
@@ -442,9 +454,11 @@ class Run:
             if ran and acked and f is None:
                 # R4: what could be optimised before saving can be optimised after loading, with the same value
                 ref = copy.deepcopy(refs[0])
-                p = self.pgrid[refs[0]._verif_grid_id]
+                p = self.pgrid[ran]
                 tw = specs.Builder(self.w)
                 try:
+                    if st.get("rfj_grid"):
+                        ref.set_timegrid(tw.grid(st["rfj_grid"]))   # documented: the grid given to run_from_json is the one used
                     opr = ref.setup_optim_problem(tw.prices(p))
                     rr = opr.optimize()
                     v_ref = None if isinstance(rr, str) else float(rr.value)
@@ -464,6 +478,8 @@ class Run:
                     return
             self.live = loaded
             self.live_grid = getattr(refs[0], "_verif_grid_id", None) if acked or len(refs) == 1 else None
+            if ran and st.get("rfj_grid"):
+                self.probes["run_from_json_with_other_grid"] = self.probes.get("run_from_json_with_other_grid", 0) + 1
             self.stats["generations"] += 1
             if acked:
                 self.need_liveness = False
